@@ -131,8 +131,9 @@ func main() {
 	fmt.Printf("Definition current_guards : panic_guards := {|\n  g_len := %s;\n  g_denom := %s;\n  g_amount := %s;\n  g_evm_denom := %s;\n  g_erc20_nul := %s;\n  g_supply := %s |}.\n",
 		CoqBool(lenGuard), CoqBool(denomGuard), CoqBool(amountGuard), CoqBool(evmDenomGuard), CoqBool(erc20NulGuard), CoqBool(supplyGuard))
 	fmt.Printf("Definition current_facts : facts := {|\n  f_funtoken := funtoken_facts;\n  f_wasm := wasm_facts;\n  f_oracle := oracle_facts;\n  f_guards := current_guards;\n")
-	fmt.Printf("  f_local_meter := %s;\n  f_oog_only := %s;\n  f_addr_conv_total := %s;\n  f_direct_ro := %s;\n  f_call_inherits_static := %s |}.\n",
-		CoqBool(localMeter), CoqBool(oogOnly), CoqBool(addrConvTotal), CoqBool(g.directRO), CoqBool(g.callInherits))
+	snapEach, maxCalls := snapshotFacts(repo)
+	fmt.Printf("  f_local_meter := %s;\n  f_oog_only := %s;\n  f_addr_conv_total := %s;\n  f_direct_ro := %s;\n  f_call_inherits_static := %s;\n  f_snap_each_call := %s;\n  f_max_calls := %d |}.\n",
+		CoqBool(localMeter), CoqBool(oogOnly), CoqBool(addrConvTotal), CoqBool(g.directRO), CoqBool(g.callInherits), CoqBool(snapEach), maxCalls)
 	fmt.Printf("(* geth fork %s: read-only argument of RunPrecompiledContract per wrapper; RequiredGas charged before Run *)\n", g.dir)
 	fmt.Printf("Definition geth_readonly_args : list (string * string) := [%s].\n", g.pairs)
 	fmt.Printf("Definition geth_charges_required_gas_first : bool := %s.\n", CoqBool(g.chargesFirst))
@@ -253,6 +254,87 @@ func mutationTable(files []File, consts map[string]string) map[string]bool {
 						}
 						out[key] = Src(kv.Value) == "true"
 					}
+				}
+			}
+		}
+	}
+	if !found {
+		// the same table written as a predicate:  func f(name PrecompileMethod) bool { switch name { case A, B: return true … default: return false } }
+		// (interpreted for every method-name constant; a method no arm names takes the default arm, Go's missing map key)
+		for _, fl := range files {
+			for _, d := range fl.F.Decls {
+				fd, ok := d.(*ast.FuncDecl)
+				if !ok || fd.Recv != nil || fd.Body == nil || found {
+					continue
+				}
+				ps := fd.Type.Params.List
+				if len(ps) != 1 || len(ps[0].Names) != 1 || Nospace(ps[0].Type) != "PrecompileMethod" ||
+					fd.Type.Results == nil || len(fd.Type.Results.List) != 1 || Nospace(fd.Type.Results.List[0].Type) != "bool" {
+					continue
+				}
+				if len(fd.Body.List) == 0 {
+					continue
+				}
+				sw, ok := fd.Body.List[0].(*ast.SwitchStmt)
+				if !ok || sw.Tag == nil || Src(sw.Tag) != ps[0].Names[0].Name {
+					continue
+				}
+				armValue := func(body []ast.Stmt) (bool, bool) {
+					if len(body) != 1 {
+						return false, false
+					}
+					r, ok := body[0].(*ast.ReturnStmt)
+					if !ok || len(r.Results) != 1 {
+						return false, false
+					}
+					switch Src(r.Results[0]) {
+					case "true":
+						return true, true
+					case "false":
+						return false, true
+					}
+					return false, false
+				}
+				table := map[string]bool{}
+				understood := true
+				for _, c := range sw.Body.List {
+					cc := c.(*ast.CaseClause)
+					v, ok := armValue(cc.Body)
+					if !ok {
+						understood = false
+						break
+					}
+					if cc.List == nil {
+						if v { // a default of true cannot be written as a table with Go's missing-key semantics
+							understood = false
+						}
+						continue
+					}
+					for _, e := range cc.List {
+						key := ""
+						switch k := e.(type) {
+						case *ast.Ident:
+							key = consts[k.Name]
+						case *ast.BasicLit:
+							key, _ = strconv.Unquote(k.Value)
+						}
+						if key == "" {
+							understood = false
+							continue
+						}
+						if _, dup := table[key]; !dup { // the first matching arm wins
+							table[key] = v
+						}
+					}
+				}
+				// whatever follows the switch must be `return false`
+				for _, s := range fd.Body.List[1:] {
+					if r, ok := s.(*ast.ReturnStmt); !ok || len(r.Results) != 1 || Src(r.Results[0]) != "false" {
+						understood = false
+					}
+				}
+				if understood && len(table) > 0 {
+					out, found = table, true
 				}
 			}
 		}
@@ -626,8 +708,29 @@ func guardOf(s ast.Stmt, fd *ast.FuncDecl, h handlerRef) string {
 func benign(s ast.Stmt) bool {
 	switch x := s.(type) {
 	case *ast.DeferStmt:
-		_, ok := x.Call.Fun.(*ast.FuncLit)
-		return ok
+		// a deferred closure, or a deferred named function whose arguments are evaluated without any call
+		// (defer wrapErr(method, &err)): nothing runs before the function returns
+		if _, ok := x.Call.Fun.(*ast.FuncLit); ok {
+			return true
+		}
+		pure := true
+		for _, a := range x.Call.Args {
+			ast.Inspect(a, func(n ast.Node) bool {
+				if _, isCall := n.(*ast.CallExpr); isCall {
+					pure = false
+				}
+				return true
+			})
+		}
+		if sel, ok := x.Call.Fun.(*ast.SelectorExpr); ok {
+			ast.Inspect(sel.X, func(n ast.Node) bool {
+				if _, isCall := n.(*ast.CallExpr); isCall {
+					pure = false
+				}
+				return true
+			})
+		}
+		return pure
 	case *ast.AssignStmt:
 		for _, r := range x.Rhs {
 			sel, ok := r.(*ast.SelectorExpr)
@@ -1202,6 +1305,211 @@ func addrConversionTotal(repo string) bool {
 		}
 	}
 	return false
+}
+
+// ---------------------------------------------------------------- StateDB: the journaled multistore snapshot
+
+// snapshotFacts reads x/evm/statedb: the method of *StateDB that receives a PrecompileCalled value (found by
+// the parameter's type, whatever it is called) and appends it to the journal.
+//   snapEach: the append is reached on EVERY call of that method - no statement before it can leave the method
+//             (a return anywhere inside an earlier statement) and the append itself is not nested in a branch
+//             or loop; same-package helpers the value is handed to are read at their call site.
+//   maxCalls: how many calls one StateDB admits: the method returns an error when its call counter compares
+//             above a package constant; N calls pass for `counter++ ; if counter > N`, the equivalent forms
+//             (>=, flipped operands, comparison before the increment) are folded. No such test: no limit (2^62).
+func snapshotFacts(repo string) (snapEach bool, maxCalls int64) {
+	files := ParseDir(repo + "/x/evm/statedb")
+	methodsOf := methodDecls(files)
+	intC := map[string]int64{}
+	for _, fl := range files {
+		for _, d := range fl.F.Decls {
+			if gd, ok := d.(*ast.GenDecl); ok {
+				collectIntConsts(gd, intC)
+			}
+		}
+	}
+	maxCalls = 1 << 62
+	var names []string
+	for n := range methodsOf {
+		names = append(names, n)
+	}
+	sort.Strings(names)
+	for _, n := range names {
+		fd := methodsOf[n]
+		if fd.Body == nil || recvName(fd) != "StateDB" {
+			continue
+		}
+		param := ""
+		for _, p := range fd.Type.Params.List {
+			if Nospace(p.Type) == "PrecompileCalled" && len(p.Names) == 1 {
+				param = p.Names[0].Name
+			}
+		}
+		if param == "" {
+			continue
+		}
+		found, uncond := appendReached(fd, param, methodsOf, 0)
+		if !found {
+			continue
+		}
+		snapEach = uncond
+		if lim, ok := callLimit(fd, intC); ok {
+			maxCalls = lim
+		}
+		return
+	}
+	return false, maxCalls
+}
+
+func containsReturn(n ast.Node) bool {
+	r := false
+	ast.Inspect(n, func(x ast.Node) bool {
+		switch x.(type) {
+		case *ast.FuncLit:
+			return false
+		case *ast.ReturnStmt:
+			r = true
+		}
+		return true
+	})
+	return r
+}
+
+// isJournalAppend: <anything>.append(<param>) as a statement of its own
+func isJournalAppend(s ast.Stmt, param string) bool {
+	es, ok := s.(*ast.ExprStmt)
+	if !ok {
+		return false
+	}
+	call, ok := es.X.(*ast.CallExpr)
+	if !ok || len(call.Args) != 1 || Src(call.Args[0]) != param {
+		return false
+	}
+	sel, ok := call.Fun.(*ast.SelectorExpr)
+	return ok && sel.Sel.Name == "append"
+}
+
+func appendReached(fd *ast.FuncDecl, param string, methodsOf map[string]*ast.FuncDecl, depth int) (found, unconditional bool) {
+	if fd == nil || fd.Body == nil || depth > 3 {
+		return false, false
+	}
+	recvT, recvV := recvName(fd), ""
+	if fd.Recv != nil && len(fd.Recv.List) == 1 && len(fd.Recv.List[0].Names) == 1 {
+		recvV = fd.Recv.List[0].Names[0].Name
+	}
+	for _, s := range fd.Body.List {
+		if isJournalAppend(s, param) {
+			return true, true
+		}
+		// the value handed to a same-package helper: read the helper in place
+		var call *ast.CallExpr
+		switch x := s.(type) {
+		case *ast.ExprStmt:
+			call, _ = x.X.(*ast.CallExpr)
+		case *ast.AssignStmt:
+			if len(x.Rhs) == 1 {
+				call, _ = x.Rhs[0].(*ast.CallExpr)
+			}
+		}
+		if call != nil {
+			var callee *ast.FuncDecl
+			switch fn := call.Fun.(type) {
+			case *ast.Ident:
+				callee = methodsOf["."+fn.Name]
+			case *ast.SelectorExpr:
+				if id, ok := fn.X.(*ast.Ident); ok && recvV != "" && id.Name == recvV {
+					callee = methodsOf[recvT+"."+fn.Sel.Name]
+				}
+			}
+			if callee != nil {
+				ps := flatParams(callee.Type)
+				for k, a := range call.Args {
+					if Src(a) == param && k < len(ps) {
+						if f, u := appendReached(callee, ps[k], methodsOf, depth+1); f {
+							return true, u
+						}
+					}
+				}
+			}
+		}
+		// the append somewhere inside this statement (a branch, a loop): conditional
+		nested := false
+		ast.Inspect(s, func(x ast.Node) bool {
+			if st, ok := x.(ast.Stmt); ok && isJournalAppend(st, param) {
+				nested = true
+			}
+			return true
+		})
+		if nested {
+			return true, false
+		}
+		// a way out of the method before the append
+		if containsReturn(s) {
+			rest := false
+			for _, t := range fd.Body.List {
+				ast.Inspect(t, func(x ast.Node) bool {
+					if st, ok := x.(ast.Stmt); ok && isJournalAppend(st, param) {
+						rest = true
+					}
+					return true
+				})
+			}
+			return rest, false
+		}
+	}
+	return false, false
+}
+
+// callLimit: if <counter> > N { return <error> } after <counter>++ (or the equivalent forms)
+func callLimit(fd *ast.FuncDecl, consts map[string]int64) (int64, bool) {
+	incremented := map[string]bool{}
+	for _, s := range fd.Body.List {
+		switch x := s.(type) {
+		case *ast.IncDecStmt:
+			if x.Tok == token.INC {
+				incremented[Nospace(x.X)] = true
+			}
+		case *ast.AssignStmt:
+			if x.Tok == token.ADD_ASSIGN && len(x.Lhs) == 1 && len(x.Rhs) == 1 && Nospace(x.Rhs[0]) == "1" {
+				incremented[Nospace(x.Lhs[0])] = true
+			}
+		case *ast.IfStmt:
+			be, ok := x.Cond.(*ast.BinaryExpr)
+			if !ok || x.Init != nil || !containsReturn(x.Body) {
+				continue
+			}
+			counter, op, other := be.X, be.Op, be.Y
+			if _, isConst := evalInt(be.X, consts); isConst {
+				counter, other = be.Y, be.X
+				switch be.Op {
+				case token.LSS:
+					op = token.GTR
+				case token.LEQ:
+					op = token.GEQ
+				case token.GTR:
+					op = token.LSS
+				case token.GEQ:
+					op = token.LEQ
+				}
+			}
+			n, ok := evalInt(other, consts)
+			if !ok {
+				continue
+			}
+			post := incremented[Nospace(counter)]
+			switch {
+			case op == token.GTR && post:
+				return n, true
+			case op == token.GEQ && post:
+				return n - 1, true
+			case op == token.GTR && !post:
+				return n + 1, true
+			case op == token.GEQ && !post:
+				return n, true
+			}
+		}
+	}
+	return 0, false
 }
 
 // ---------------------------------------------------------------- go-ethereum fork
